@@ -1745,7 +1745,9 @@ impl<'a, W: AsRef<[u64]>> YamlCursor<'a, W> {
                         keyed.sort_by(|a, b| a.0.cmp(&b.0));
                         items = keyed.into_iter().map(|(_, field)| field).collect();
                     }
-                    let last_index = items.len() - 1;
+                    // `fields` can be non-empty yet yield no complete
+                    // key/value pair (a key node with no value sibling).
+                    let last_index = items.len().saturating_sub(1);
                     for (i, field) in items.into_iter().enumerate() {
                         if i != 0 {
                             out.write_str(", ")?;
